@@ -10,8 +10,9 @@ LEVEL = "exploration"
 ASSUMPTIONS = [
     "attribute dicts have keys among the 8 attribute names (parse_args enforces it for everything built through the public API); "
     "values are non-zero/non-None (colour numbers, booleans)",
-    "parse_args (string tests, dict mutation), shared_atts (all() over a generator inside a loop), copy_with_new_str (nested dict "
-    "comprehension) and the fmtfuncs partials are decided by exhaustive-finite / bounded evaluation, not deductively",
+    "shared_atts is under deductive contract (every reported key/value is held by every run with characters: loop invariant over a symbolic "
+    "attribute key, all() over the filtered generator as a quantified fact); parse_args (string tests, dict mutation), copy_with_new_str "
+    "(nested dict comprehension) and the fmtfuncs partials are decided by exhaustive-finite / bounded evaluation, not deductively",
     "fmtstr(str) on text free of ESC[ is FmtStr(Chunk(text)) (C17)",
 ]
 COLORS = ("black", "red", "green", "yellow", "blue", "magenta", "cyan", "gray")
@@ -26,6 +27,7 @@ def deductive(check, tier):
     verify(A.remove_split(keys if tier != "thorough" else A.ATT_KEYS[:5]), tier, check)
     verify(A.copy_with_new_atts, tier, check)
     verify(A.new_with_atts_removed, tier, check)
+    verify(A.shared_atts, tier, check)
 
 
 # ------------------------------------------------------------------------------ spec of parse_args (from the statement)
